@@ -110,6 +110,21 @@ def family():
         "Circle": {"allOf": [ref("Shape"), {"type": "object", "properties": {"kind": {"type": "string", "default": "circle", "description": "always circle"}, "r": {"type": "number"}}}]},
         "Square": {"allOf": [ref("Shape"), {"type": "object", "required": ["kind"], "properties": {"kind": {"type": "string", "default": "square", "description": "always square"}, "side": {"type": "number"}}}]},
         "Blob": {"allOf": [ref("Shape"), {"type": "object", "properties": {"area": {"type": "integer", "default": 0}}}]}})
+    # a child whose required list promotes SEVERAL inherited optional properties (order of promotion must not be a set's order)
+    F["required-promotes-inherited"] = gen.base_doc({
+        "Base": obj(alpha={"type": "string"}, beta={"type": "integer"}, gamma={"type": "boolean"}, delta={"type": "number"}, epsilon={"type": "string", "format": "date"}),
+        "Strict": {"allOf": [ref("Base"), {"required": ["epsilon", "alpha", "gamma", "delta"]}]},
+        "Stricter": {"allOf": [ref("Strict")], "required": ["beta", "zeta"], "properties": {"zeta": {"type": "string"}}}})
+    # union-like wrappers (3.0 nullable reference, nullable array, nullable composed inline object) around references that may be forward ones
+    F["nullable-wrappers-30"] = (gen.base_doc({
+        "Person": obj(name={"type": "string"}),
+        "MaybePerson": {"allOf": [ref("Person")], "nullable": True},
+        "MaybePeople": {"type": "array", "items": ref("Person"), "nullable": True},
+        "Task": obj(assignee={"nullable": True, "allOf": [ref("Person"), obj(role={"type": "string"})]}, owner=ref("MaybePerson"), team=ref("MaybePeople"))},
+        paths={"/t": {"get": {"operationId": "getT", "responses": jr("Task")}}}, version="3.0.3"), {})
+    # literal enums whose values differ only in case
+    F["literal-enum-case"] = (gen.base_doc({"Unit": {"type": "string", "enum": ["m", "M", "mm", "Mm", "MM", "k", "K"]}, "Holder": obj(u=ref("Unit"), v={"type": "string", "enum": ["a", "A", "b", "B"]})}),
+                              {"literal_enums": True})
     out = {}
     for k, v in F.items():
         out[k] = v if isinstance(v, tuple) else (v, {})
